@@ -3,7 +3,9 @@ package checks
 import (
 	"bytes"
 	"encoding/json"
+	"errors"
 	"fmt"
+	"go/token"
 	"reflect"
 	"regexp"
 	"sort"
@@ -164,6 +166,38 @@ func (w *c08World) fragRender(i int, where string) string {
 	return o.Key()
 }
 
+// halfWriter accepts a little more than half of what it is given and then fails.
+type halfWriter struct{ buf bytes.Buffer }
+
+func (w *halfWriter) Write(p []byte) (int, error) {
+	n := len(p)/2 + 1
+	if n > len(p) {
+		n = len(p)
+	}
+	w.buf.Write(p[:n])
+	return n, errors.New("injected: device full")
+}
+
+// fragRenderFailingWriter renders fragment i with the File into a writer that fails after having
+// accepted part of the text: the render must report the error, and a qualifier that the accepted
+// bytes show has appeared in output produced with the File.
+func (w *c08World) fragRenderFailingWriter(i int, where string) {
+	hw := &halfWriter{}
+	o := jh.Catch(func() (string, error) { return "", w.frags[i].RenderWithFile(hw, w.F) })
+	w.nRenders++
+	if o.Panic != nil {
+		w.problems = append(w.problems, fmt.Sprintf("%s: panic: %v", where, o.Panic))
+		return
+	}
+	if o.Err == nil {
+		w.problems = append(w.problems, where+": the writer failed but RenderWithFile returned nil")
+	}
+	got := hw.buf.String()
+	if k := strings.Index(got, "."); k > 0 && token.IsIdentifier(got[:k]) {
+		w.observe(w.fragPath[i], got[:k], where)
+	}
+}
+
 type c08Op struct {
 	name string
 	do   func(w *c08World) bool
@@ -240,6 +274,11 @@ var c08Ops = func() []c08Op {
 			return true
 		})
 	}
+	add("Fragment0.RenderWithFile(failing writer)", func(w *c08World) bool {
+		w.Log = append(w.Log, fmt.Sprintf("Qual(%s).RenderWithFile(writer failing half-way, file)", w.fragPath[0]))
+		w.fragRenderFailingWriter(0, fmt.Sprintf("fragment 0 render #%d into a failing writer", w.nRenders+1))
+		return true
+	})
 	add("ImportName(a/f)", func(w *c08World) bool { w.Name("a/f"); return true })
 	add("ImportAlias(a/f,g)", func(w *c08World) bool { w.Alias("a/f", "g"); return true })
 	add("ImportAlias(a/f,.)", func(w *c08World) bool { w.Alias("a/f", "."); return true })
